@@ -1,7 +1,7 @@
 (* C12 - The DAP adapter speaks the protocol correctly for any request history.
    Statements only; the proofs are in ProofsDapWire.v.
    Part 1: the source as it is now (constants read off the source by the translator, BS.Gen.Dap).
-   Part 2: what was wrong before the repairs 90c36fc / 4335108 (theorems suffixed _old).
+   Part 2: what was wrong before the repairs 90c36fc / ae66bdd (theorems suffixed _old).
    Part 3: what is still false of the current source. *)
 From BS Require Import Model.Base Gen.Dap.
 From W Require Import ModelDapWire ProofsDapWire.
@@ -46,27 +46,27 @@ Proof. exact session_alone_matches_sequential. Qed.
 
 (* --- responses --- *)
 
-(* The exact condition [inputs_guard_okb]: on the path taken a handler returning Ok answers
-   once, a handler returning Err answers at most once, and a handler that fails without
-   having answered does not carry the seq of the last answered request.  Then every consumed
-   request gets exactly one response, with its seq and command, in request order. *)
+(* Condition [input_at_most_onceb]: on the path taken a handler returning Ok answers exactly
+   once and a handler returning Err answers at most once.  Then every consumed request gets
+   exactly one response, with its seq and command, in request order - whatever seqs the
+   client uses (repeated, out of order). *)
 Theorem C12_one_response_guarded : forall ins,
-  inputs_guard_okb None ins = true ->
+  forallb input_at_most_onceb ins = true ->
   one_response_per_request (processed ins) (bodies (run_gen true ins init_st)).
 Proof. exact one_response_guarded. Qed.
 
 (* the same about [run], i.e. with the guard as translated from the source today *)
 Theorem C12_one_response_now : forall ins,
-  inputs_guard_okb None ins = true ->
+  forallb input_at_most_onceb ins = true ->
   one_response_per_request (processed ins) (bodies (run ins init_st)).
 Proof. exact one_response_now. Qed.
 
-(* simple sufficient condition: handlers answer at most once (exactly once when they return Ok)
-   and no two consecutive requests carry the same seq *)
-Theorem C12_one_response_guarded_simple : forall ins,
-  forallb input_at_most_onceb ins = true -> distinct_adjacent_seqs None ins = true ->
-  one_response_per_request (processed ins) (bodies (run_gen true ins init_st)).
-Proof. exact one_response_guarded_simple. Qed.
+(* a repeated request seq is answered (it was not by the intermediate repair, see part 2) *)
+Theorem C12_repeated_seq_now :
+  bodies (run ins_repeated_seq init_st) =
+    [Response 1 CMD_INITIALIZE true; Event EV_INITIALIZED 0; Response 1 CMD_LAUNCH false] /\
+  forallb input_at_most_onceb ins_repeated_seq = true.
+Proof. exact repeated_seq_now. Qed.
 
 (* a handler that answers and fails afterwards (continue before configurationDone) is answered
    once now, twice by the old loop *)
@@ -81,10 +81,10 @@ Proof. exact respond_then_fail_now. Qed.
 Theorem C12_error_response_guarded : forall r c h s,
   s_fail h = true ->
   snd (dispatch_one_gen true r c h s) = true /\
-  (count_resp (s_body h) = 0%nat -> last_responded s <> Some r ->
+  (count_resp (s_body h) = 0%nat ->
      error_response_for_failing_request r c (bodies s) (bodies (fst (dispatch_one_gen true r c h s)))) /\
   (count_resp (s_body h) <> 0%nat ->
-     fst (dispatch_one_gen true r c h s) = run_body r c (s_body h) s).
+     fst (dispatch_one_gen true r c h s) = run_body r c (s_body h) (set_last_responded None s)).
 Proof. exact error_response_guarded. Qed.
 
 (* --- lifecycle --- *)
@@ -113,7 +113,7 @@ Proof. exact lifecycle_okb_sound. Qed.
    disconnect) satisfies all hypotheses and passes the wire-level checker *)
 Example C12_nonvacuous :
   let ins := ins_to_exit ++ [InReq 5 CMD_DISCONNECT (Script [PRespond true] false false)] in
-  single_debuggee_b ins = true /\ inputs_guard_okb None ins = true /\
+  single_debuggee_b ins = true /\ forallb input_at_most_onceb ins = true /\
   length (wire (run ins init_st)) = 21%nat /\
   wire_check (processed ins, wire (run ins init_st)) = 0.
 Proof. vm_compute. auto. Qed.
@@ -154,6 +154,14 @@ Theorem C12_disconnect_double_response_refuted_old :
     [Response 1 CMD_DISCONNECT true; Response 1 CMD_DISCONNECT false; Response 2 CMD_THREADS false].
 Proof. exact disconnect_double_response_refuted_old. Qed.
 
+(* the intermediate repair 4335108 (guard without the reset of mod.rs:678) compared request
+   seqs: a request failing before answering and repeating the seq of the last answered request
+   got no response at all *)
+Theorem C12_silent_repeated_seq_refuted_old :
+  processed ins_repeated_seq = [(1%Z, CMD_INITIALIZE); (1%Z, CMD_LAUNCH)] /\
+  bodies (run_seqguard ins_repeated_seq init_st) = [Response 1 CMD_INITIALIZE true; Event EV_INITIALIZED 0].
+Proof. exact silent_repeated_seq_refuted_old. Qed.
+
 (* what the unguarded loop did for arbitrary scripts, and when that was right *)
 Theorem C12_responses_general_old : forall ins s,
   resp_proj (bodies (run_gen false ins s)) = resp_proj (bodies s) ++ expected ins.
@@ -166,16 +174,6 @@ Proof. exact one_response_old. Qed.
 (* ================================================================== *)
 (* 3. Still false of the current source                               *)
 (* ================================================================== *)
-
-(* the guard compares request seqs: a request that fails before answering and repeats the seq
-   of the last answered request gets no response at all (the old loop answered it) *)
-Theorem C12_silent_repeated_seq_refuted :
-  processed ins_repeated_seq = [(1%Z, CMD_INITIALIZE); (1%Z, CMD_LAUNCH)] /\
-  bodies (run ins_repeated_seq init_st) = [Response 1 CMD_INITIALIZE true; Event EV_INITIALIZED 0] /\
-  inputs_guard_okb None ins_repeated_seq = false /\
-  bodies (run_gen false ins_repeated_seq init_st) =
-    [Response 1 CMD_INITIALIZE true; Event EV_INITIALIZED 0; Response 1 CMD_LAUNCH false].
-Proof. exact silent_repeated_seq_refuted. Qed.
 
 (* a request that fails after its success response is reported as a success only *)
 Theorem C12_failed_continue_reports_success_refuted :
